@@ -234,6 +234,26 @@ def has_multibit_assign(netlist):
     return False
 
 
+def assign_not_one_slice(netlist):
+    """some assignment instance has a side (the pins of o or of i, in pin order) that is not one run of consecutive
+    wires of ONE cable, in either direction: there is no "c[h:l]" for it (after flatten: the port of the flattened
+    module was connected to a concatenation)"""
+    for lib in netlist.libraries:
+        for d in lib.definitions:
+            for inst in d.children:
+                if not W.is_assign_instance(inst):
+                    continue
+                for port in inst.reference.ports:
+                    ws = [inst.pins[p].wire for p in port.pins]
+                    if any(w is None for w in ws) or len(set(id(w.cable) for w in ws)) > 1:
+                        return True
+                    idx = [w.cable.wires.index(w) for w in ws]
+                    steps = set(b - a for a, b in zip(idx, idx[1:]))
+                    if steps and steps != {1} and steps != {-1}:
+                        return True
+    return False
+
+
 def has_portless_primitive(netlist):
     for lib in netlist.libraries:
         if lib.name == W.PRIM_LIB:
@@ -363,6 +383,9 @@ def c04_items(netlist, opts=None):
         if any(p.name is None for lib in netlist.libraries for d in lib.definitions for p in d.ports):
             return [item('compose-raises', 'C04|compose-raises|netlist-with-unnamed-ports|' + m,
                          'composer raised %s on a netlist with unnamed ports (positional map on a never-declared module)' % m)], None, None
+        if 'connected to a single assignment' in m and assign_not_one_slice(netlist):
+            return [item('compose-raises', 'C04|compose-raises|assign-pins-not-one-slice|' + m,
+                         'composer raised %s on a netlist with an assignment instance whose o or i pins are not one slice of one cable' % m)], None, None
         return [item('compose-raises', 'C04|compose-raises|' + m, 'composer raised %s' % m)], None, None
     # the property quantifies over every write: a second write of the same netlist (same process) must give the
     # same file, otherwise its read-back cannot give the same modules either
